@@ -185,6 +185,8 @@ class ClaimNet:
                 else:
                     if frames:
                         self.probe_problems.append("%s put a frame on the bus while the CA holds no address (state %d)" % (name, ca.state))
+                    elif raised is None and name == 'Dm1 cyclic send':
+                        pass        # the timer callback of the cyclic service: it skips the cycle (raising there would end the job thread)
                     elif raised is None:
                         self.probe_problems.append("%s did not raise while the CA holds no address (state %d)" % (name, ca.state))
             else:
